@@ -1068,14 +1068,35 @@ class Interp(object):
             return int(x, base) if base is not None else int(x)
         return int(x)
 
+    def _abstract_comp(self, node, fr):
+        g = node.generators[0]
+        it = self.eval(g.iter, fr)
+        if not isinstance(it, AbstractSeq):
+            return (it,)
+        if len(node.generators) != 1:
+            raise Unsupported("nested comprehension over an abstract sequence")
+        tgt = ast.dump(g.target)
+        res = it
+        if g.ifs:
+            res = res.derive('filter', tgt + '|' + '&'.join(ast.dump(c) for c in g.ifs))
+        if not (isinstance(node.elt, ast.Name) and isinstance(g.target, ast.Name) and node.elt.id == g.target.id):
+            res = res.derive('map', tgt + '|' + ast.dump(node.elt))
+        return res
+
     def e_ListComp(self, node, fr):
+        r = self._abstract_comp(node, fr)
+        if isinstance(r, AbstractSeq):
+            return r
         out = []
-        self.comp(node.generators, 0, fr, lambda f: out.append(self.eval(node.elt, f)))
+        self.comp(node.generators, 0, fr, lambda f: out.append(self.eval(node.elt, f)), first=r)
         return out
 
     def e_GeneratorExp(self, node, fr):
+        r = self._abstract_comp(node, fr)
+        if isinstance(r, AbstractSeq):
+            return r
         out = []
-        self.comp(node.generators, 0, fr, lambda f: out.append(self.eval(node.elt, f)))
+        self.comp(node.generators, 0, fr, lambda f: out.append(self.eval(node.elt, f)), first=r)
         return out
 
     def e_SetComp(self, node, fr):
@@ -1092,7 +1113,7 @@ class Interp(object):
         self.comp(node.generators, 0, fr, add)
         return out
 
-    def comp(self, gens, i, fr, emit):
+    def comp(self, gens, i, fr, emit, first=None):
         if i == 0:
             fr = Frame(fr.gdict, fr, fr.fname, fr.qual)
             fr.gnames = set()
@@ -1101,7 +1122,8 @@ class Interp(object):
             return
         g = gens[i]
         n = 0
-        for x in self.iterate(self.eval(g.iter, fr)):
+        src = first[0] if (i == 0 and first is not None) else self.eval(g.iter, fr)
+        for x in self.iterate(src):
             n += 1
             if n > self.max_loop * 10:
                 raise PathLimit("comprehension too long")
@@ -1193,8 +1215,56 @@ def hex_of(path, x):
     if not isinstance(x, Sym):
         return hex(x)[2:]
     t = hexstr(x.e)
-    path.axiom(z3.And(hexnumeral(t), hexval(t) == x.e, z3.Length(t) >= 1))
+    path.axiom(z3.And(hexnumeral(t), hexval(t) == x.e, z3.Length(t) >= 1, (t == z3.StringVal("0")) == (x.e == 0)))
     return Sym(t)
+
+
+class AbstractSeq(object):
+    """a list of unknown (symbolic) length whose elements are only observed through list
+    homomorphisms: len(S), [f(x) for x in S], [x for x in S if p(x)], sum(...).  Each derived
+    quantity is an uninterpreted summary determined by (S, source text of f / p): functional
+    consistency is kept, nothing else is assumed (sound over-approximation).  The element-level
+    facts (f(x) equals the oracle for every x) are separate item-level obligations; lifting them
+    to sums is the map/sum congruence lemma of the spec library."""
+
+    def __init__(self, name, length=None, parent=None, key=''):
+        self.name = name
+        self.parent = parent
+        self.key = key
+        if length is None:
+            length = Sym(z3.Int('len!' + name))
+            sym.cur().assume(length.e >= 0)
+        self.length = length
+        self._derived = {}
+
+    def derive(self, kind, key):
+        import hashlib
+        k = (kind, key)
+        d = self._derived.get(k)
+        if d is None:
+            h = hashlib.sha1(key.encode()).hexdigest()[:10]
+            nm = "%s.%s_%s" % (self.name, kind, h)
+            if kind == 'map':
+                d = AbstractSeq(nm, self.length, self, key)
+            else:
+                n = Sym(z3.Int('len!' + nm))
+                sym.cur().assume(z3.And(n.e >= 0, n.e <= sym._as_int_expr(self.length)))
+                d = AbstractSeq(nm, n, self, key)
+            self._derived[k] = d
+        return d
+
+    def total(self):
+        t = Sym(z3.Int('sum!' + self.name))
+        return t
+
+    def __deepcopy__(self, memo):
+        return self
+
+    def __iter__(self):
+        raise Unsupported("iteration over an abstract sequence (%s) outside a comprehension" % self.name)
+
+    def __len__(self):
+        raise Unsupported("native len() of abstract sequence")
 
 
 class SymSlice(object):
@@ -1361,6 +1431,8 @@ def _h_str(it, x=''):
 
 
 def _h_len(it, x):
+    if isinstance(x, AbstractSeq):
+        return x.length
     if isinstance(x, Sym):
         if x.kind == 'str':
             return sym.wrap(z3.Length(x.e))
@@ -1486,6 +1558,8 @@ def _h_min(it, *args, **kwargs):
 
 
 def _h_sum(it, xs, start=0):
+    if isinstance(xs, AbstractSeq):
+        return xs.total() + start
     t = start
     for x in it.iterate(xs):
         t = t + x
